@@ -281,6 +281,20 @@ def run(world, rep, tier, only=None):
         rep.ob("C08.e", site(f, "%s is shown unused entries too" % g.name), ok,
                "%s %s: flags `%s` contain DIRENT_FLAG_INCLUDE_EMPTY" % (g.name, why, T.pp(fl)[:30]))
 
+    # ------------------------------------------------------------------ C08.f the block walk's inode update is not overwritten
+    # ext2fs_block_iterate3() writes the inode itself when the relocation callback reports BLOCK_CHANGED for a pointer
+    # held in i_block; the scan's own copy (which carries the old pointers) must not be written after the walk.
+    n_f = 0
+    for f in prog.functions():
+        if not f.file.startswith("resize/"):
+            continue
+        for (m, w_, stale) in stale_inode_writes(f):
+            n_f += 1
+            rep.ob("C08.f", site(f, "inode written at line %d is fresh after %s" % (w_.line, _cn(m))), not stale,
+                   "every path from `%s` (line %d) to `%s` re-reads the inode into the written copy" %
+                   (m.text()[:30], m.line, w_.text()[:40]))
+    rep.floor("C08.f walk-then-write pairs in resize2fs", n_f, 2)
+
 def _cn(n):
     return T.call_names(n.ev["x"])[0] if T.call_names(n.ev["x"]) else "?"
 
